@@ -2684,6 +2684,26 @@ func (c *DnsController) applyPreferenceWait(respMsg *dnsmessage.Msg) *dnsmessage
 	return respMsg
 }
 
+// dnsResponseAnswersRequest reports whether resp carries the question of the
+// packed request reqData: same name (case-insensitively), type and class. A
+// response without a question section is only acceptable when it carries no
+// records either (a bare error reply).
+func dnsResponseAnswersRequest(reqData []byte, resp *dnsmessage.Msg) bool {
+	if resp == nil {
+		return false
+	}
+	if len(resp.Question) == 0 {
+		return len(resp.Answer) == 0 && len(resp.Ns) == 0
+	}
+	var reqMsg dnsmessage.Msg
+	if err := reqMsg.Unpack(reqData); err != nil || len(reqMsg.Question) == 0 {
+		return false
+	}
+	asked, got := reqMsg.Question[0], resp.Question[0]
+	return asked.Qtype == got.Qtype && asked.Qclass == got.Qclass &&
+		strings.EqualFold(dnsmessage.CanonicalName(asked.Name), dnsmessage.CanonicalName(got.Name))
+}
+
 func (c *DnsController) dialSend(
 	ctx context.Context,
 	invokingDepth int,
@@ -2738,6 +2758,13 @@ func (c *DnsController) dialSend(
 	respMsg, usedDialArg, err = c.forwardWithFallback(ctx, req, upstream, dialArg, data)
 	if err != nil {
 		return err
+	}
+	// The transaction id alone does not make a response an answer to this
+	// query (RFC 5452 section 9.1): it must also carry the question that was
+	// asked. Otherwise it would be routed, handed to the client and cached
+	// under a name and type it is not an answer to.
+	if !dnsResponseAnswersRequest(data, respMsg) {
+		return fmt.Errorf("upstream %v answered a different question than the one asked", upstreamName)
 	}
 
 	networkType := &dialer.NetworkType{
